@@ -8,8 +8,8 @@ clang-format style) the splicer inserts macro *names* (never code):
     C_<fn>          immediately before the opening brace of the function     (function contract)
     E_<fn>          immediately after  the opening brace of the function     (ghost entry statement)
     L_<fn>_<n>      after the header of the n-th loop (pre-order, 1-based) of <fn>:
-                    after `)` of `for (...)` / `while (...)`, and after the `)` of the trailing
-                    `while (...)` of a `do` loop                               (loop contract)
+                    after `)` of `for (...)` / `while (...)`, and right after the `do`
+                    keyword of a `do ... while` loop (where CBMC 6.11 expects it)                               (loop contract)
     H_<fn>_<n>      first statement of the body of that loop; when the body is a single statement
                     it is wrapped as `{ H_<fn>_<n> stmt }` (the two brace tokens are insertions too)
                                                                              (ghost statement)
@@ -196,6 +196,8 @@ class _FnParser:
         if w == 'do':
             self.loops += 1
             n = self.loops
+            # CBMC 6.11 takes the loop contract of a do-while right after the `do` keyword
+            self.ins.append((i + 2, ' L_%s_%d ' % (self.fn, n)))
             b = _skip_ws(m, i + 2)
             if m[b] == '{':
                 self.ins.append((b + 1, ' H_%s_%d ' % (self.fn, n)))
@@ -208,7 +210,6 @@ class _FnParser:
             if _word_at(m, e) != 'while':
                 raise ParseError('do without while')
             j = self._paren(e + 5)
-            self.ins.append((j + 1, ' L_%s_%d ' % (self.fn, n)))
             k = _skip_ws(m, j + 1)
             if m[k] != ';':
                 raise ParseError('do-while without ;')
